@@ -309,6 +309,24 @@ func c16AddOutputTools(s *Server, plan map[string]*c16OutCase) {
 		}
 		return content(c), map[string]any{}, nil
 	})
+	// an object output schema without required members, and an output type that can hold any JSON value
+	loose := c16Schema{"type": "object", "properties": c16Schema{"unit": c16Schema{"type": "string", "default": "C"}}}
+	AddTool(s, &Tool{Name: "out-any-object-schema", OutputSchema: loose}, func(ctx context.Context, r *CallToolRequest, in map[string]any) (*CallToolResult, any, error) {
+		c := pick("out-any-object-schema")
+		switch c.ret {
+		case "string":
+			return content(c), "twenty degrees", nil
+		case "number":
+			return content(c), 20, nil
+		case "bool":
+			return content(c), true, nil
+		case "array":
+			return content(c), []int{20}, nil
+		case "empty-array":
+			return content(c), []int{}, nil
+		}
+		return content(c), map[string]any{"t": 20}, nil
+	})
 	AddTool(s, &Tool{Name: "out-any"}, func(ctx context.Context, r *CallToolRequest, in map[string]any) (*CallToolResult, any, error) {
 		c := pick("out-any")
 		if c.ret == "nil" {
@@ -335,6 +353,7 @@ func c16OutCases() []*c16OutCase {
 	add("out-explicit", "valid", "valid-with-d", "too-big", "wrong-type", "missing-required")
 	add("out-nested-default", "inner-empty", "inner-set", "inner-bad", "outer-empty")
 	add("out-any", "nil", "obj")
+	add("out-any-object-schema", "object", "string", "number", "bool", "array", "empty-array")
 	return out
 }
 
@@ -381,6 +400,11 @@ func c16ExpectedOutput(c *c16OutCase) string {
 			return `{"o":{"d":"dflt"}}`
 		}
 		return "ERR"
+	case "out-any-object-schema":
+		if c.ret == "object" {
+			return `{"t":20,"unit":"C"}`
+		}
+		return "ERR" // not an object: violates the declared output schema
 	case "out-any":
 		if c.ret == "nil" {
 			return ""
